@@ -34,8 +34,10 @@ func (svr *Server) VerifSetPacketIDCounters(v uint32) {
 // alike), so that the harness can see subscriptions that outlive their
 // connection.
 func (svr *Server) VerifSubscribers(topic string) (int, error) {
-	if svr.topicsMgr == nil {
-		return 0, nil
+	// (going through the configuration Once orders this call after the
+	// server's start-up, as every other API call does)
+	if err := svr.checkConfiguration(); err != nil {
+		return 0, err
 	}
 	var subs []interface{}
 	var qoss []byte
